@@ -286,7 +286,12 @@ def _judge(sc, fault, stats):
     reply = run(_request(sc, faulted_files, sc["paths"], plan=plan), sc["cls"])
     status = reply.get("status")
     result = reply.get("result")
-    fired = bool(result and (kind == "undecodable" or len(result.get("fired") or []) == len(plan or [])))
+    if kind == "undecodable":
+        # the fault "fires" when the poisoned file is actually opened (an earlier
+        # failing file stops a run without --continue-on-error before that)
+        fired = bool(result) and any(e[0] == "fs" and e[1] == "open-r" and e[3] == "<W>/" + bad for e in result.get("log", []))
+    else:
+        fired = bool(result and len(result.get("fired") or []) == len(plan or []))
     value = event_digest(reply)
     site = (fault.get("plan") or {}).get("site", "undecodable")
     act = (fault.get("plan") or {}).get("act", "-")
